@@ -38,8 +38,8 @@ InsAt(s, i, x) == [j \in 1..(Len(s) + 1) |-> IF j < i THEN s[j] ELSE IF j = i TH
 Swap(s, i, j) == [k \in 1..Len(s) |-> IF k = i THEN s[j] ELSE IF k = j THEN s[i] ELSE s[k]]
 
 ApplyHere(n, op) ==
-  CASE op.op = "free"  -> [n EXCEPT !.kids = InsAt(@, op.at, Leaf(Box(FREE, Zeros(op.len))))]
-    [] op.op = "unk"   -> [n EXCEPT !.kids = InsAt(@, op.at, Leaf(Box(op.cc, Fill(op.len, 90))))]
+  CASE op.op = "free"  -> [n EXCEPT !.kids = InsAt(@, op.at, [Leaf(Box(FREE, Zeros(op.len))) EXCEPT !.large = op.big])]
+    [] op.op = "unk"   -> [n EXCEPT !.kids = InsAt(@, op.at, [Leaf(Box(op.cc, Fill(op.len, 90))) EXCEPT !.large = op.big])]
     [] op.op = "swap"  -> [n EXCEPT !.kids = Swap(@, op.i, op.j)]
     [] op.op = "large" -> [n EXCEPT !.large = TRUE]
     [] op.op = "spare" -> [n EXCEPT !.spare = Fill(op.len, 165)]
